@@ -299,6 +299,41 @@ CLAIMED = {
              "calls are inconclusive.",
         technique="Lean 4 proof (sampler and bisection state machines over translator-generated definitions) + trace correspondence",
         design="DESIGN.md §3 C18, §9"),
+    "C16": dict(
+        text="Lean 4 theorems about definitions the translator regenerates from mri/linop.py Sense and the recon classes of mri/app.py "
+             "(Gen/SenseFormulas.lean: batching guard, num_coil_batches, batch range, Vstack axis, slice bounds of mps[...] and "
+             "weights[...], per-coil test, keywords forwarded to the batches, FFT axes, exponent of weights**0.5, _estimate_weights "
+             "rule, per recon class the y*weights**e exponent and prox/G construction): batch_slices_partition / "
+             "sense_batch_partition (the slices [c b, (c+1) b) for c < ceil(n/b) concatenate to 0..n-1 in order for ALL n and b >= 1), "
+             "sense_batches_nonempty, sense_denote (the unbatched operator is sqrt(w) * F(mps_c * x) for an abstract linear F), "
+             "batched_apply, sense_batch_invariant (forward result identical for every batch size with no / shared / per-coil "
+             "sliced weights), weights_exponent_is_half, weights_sliced_with_coils, batch_forwards_all, recon_setup_sense / "
+             "_l1wavelet / _tv, recon_objective (sum ||sqrt(w) a - sqrt(w) y||^2 = sum w ||a - y||^2), estimated_weights_sqrt, "
+             "consistent_data_recovers (A injective, y = A x0, lamda = 0: x minimises iff x = x0). Tie: translator + the real "
+             "operator's A(x) and A.H(y) vs the exact Gaussian-rational model with F supplied as exact fractions of numpy's FFT / "
+             "single-coil nufft of basis images (1e-9), reified operator trees, recon set-ups.",
+        note="Trusted: Lean kernel; translator gen_c16; PARTIAL: adjoint batch invariance is proved only as the sum form "
+             "(sense_adjoint_batch_sum_partial; the link to the model's adjoint is by correspondence); no <Ax,y> = <x,A^H y> theorem "
+             "here (C01's dot test covers Sense); that FFT/NUFFT equal the matrix F, that the solvers reach the minimiser (objective "
+             "gap vs dense reference), tseg and comm are oracle/correspondence only; L1WaveletRecon only under numerically verified "
+             "unitarity of W.",
+        technique="Lean 4 proof (batch partition, explicit encoding, recon objectives) over translator-generated set-up + correspondence",
+        design="DESIGN.md §3 C16, §9"),
+    "C17": dict(
+        text="PARTIAL by nature (SVD / power-iteration numerics; recovery depends on smoothness). Lean 4 theorems over C about the "
+             "post-processing the translator extracts from EspiritCalib (Gen/EspiritFormulas.lean: calib shape, block/stride "
+             "arguments, reshape/transpose steps, threshold test, Gram scale, normalize power/axis/root, reference coil, crop "
+             "comparison): normalize_eq, power_step_unit (unit l2 norm across coils, estimate ||Gx|| > 0), phase_ref / "
+             "phase_ref_norm (coil 0 becomes |m0| >= 0 real, every modulus unchanged), espirit_keeps_iff (crop test is strictly >), "
+             "crop_dichotomy (unit-norm with coil 0 = |m0|, or exactly 0), gram_symmetric / gram_psd, power_monotone / "
+             "power_bounded (Cauchy-Schwarz), espirit_scale, calib_index_map (1-D: entry (n, c kw + x) reads calib[c, n+x], reusing "
+             "C09 a2b1_mem). Tie: translator + real normalize / PowerMethod._update / _output on exact Pythagorean inputs vs the "
+             "model (1e-12, zeros exactly), calibration matrix captured at the real svd call on labelled k-space compared exactly.",
+        note="Trusted: Lean kernel; translator gen_c17; NOT theorems (search oracle only): eigenvalues <= 1, recovery of the true "
+             "maps (1e-2 in the interior, restricted to settings where the unchanged code achieves it: calib_width 12, kernel_width "
+             "4), SVD / power-iteration convergence; 2-D/3-D calibration index maps by correspondence; m0 = 0 voxels (0/0) excluded.",
+        technique="Lean 4 proof (per-voxel post-processing algebra) over translator-generated formulas + correspondence + invariant oracle",
+        design="DESIGN.md §3 C17, §9"),
 }
 NOT_YET = "check not built yet in this round (framework exists; see DESIGN.md §8 build order)"
 
